@@ -257,11 +257,27 @@ pub struct Monitors {
     // C03
     pub cp_signed: BTreeMap<u64, (u64, u64)>,
     pub cp_revoked: BTreeMap<u64, [u8; 32]>,
+    /// revocations refused while a store write was failing: possibly recorded by the store side that took the write
+    pub cp_revoked_maybe: BTreeSet<u64>,
+    /// holder secrets whose release may be recorded in the store although the reply was refused (write failure)
+    pub revoked_maybe: BTreeSet<u64>,
+    /// sign requests refused while a store write was failing (number → point): possibly recorded as signed
+    pub cp_signed_maybe: BTreeMap<u64, u64>,
     pub violations: Vec<Violation>,
 }
 
+pub type Kvv = KVVPersister<MemoryKVVStore, JsonFormat>;
+
 pub struct World {
     pub persister: Arc<dyn Persist>,
+    pub store: Arc<Kvv>,
+    pub backup_store: Option<Arc<Kvv>>,
+    /// while set, every write to the backup side fails (composite store only)
+    pub fail_b: Arc<std::sync::atomic::AtomicBool>,
+    /// while set, every store write fails (the main store of a composite)
+    pub fail: Arc<std::sync::atomic::AtomicBool>,
+    /// the policy tag demoted to a warning in this world
+    pub demoted: Option<String>,
     /// manual clock shared by all incarnations of the node (keysend approvals expire after 60 s)
     pub clock: Arc<ManualClock>,
     pub seed: [u8; 32],
@@ -279,6 +295,8 @@ pub struct World {
     pub step: usize,
     /// the implementation panicked (poisoned locks): only `restart` makes sense afterwards
     pub dead: bool,
+    /// a store-write failure is being injected into the running request
+    pub in_fail: bool,
 }
 
 fn config() -> NodeConfig {
@@ -290,8 +308,35 @@ fn config() -> NodeConfig {
     }
 }
 
-fn services(persister: Arc<dyn Persist>, clock: Arc<ManualClock>) -> NodeServices {
-    let policy = make_default_simple_policy(Network::Testnet);
+/// policy tags that none of C01/C02/C03 rests on: each may be demoted to a warning by a deployment's policy
+/// filter (`SimplePolicy.filter`) without relaxing revoke-after-validate, sign/revoke exclusion, the counterparty
+/// window, the revocation point match or the chain check.  (`policy-commitment-retry-same` is what C03's
+/// "re-signs only identical" rests on: with it demoted only that one monitor is disarmed.)
+pub const DEMOTABLE_TAGS: [&str; 16] = [
+    "policy-commitment-retry-same",
+    "policy-commitment-fee-range",
+    "policy-commitment-htlc-count-limit",
+    "policy-commitment-htlc-inflight-limit",
+    "policy-commitment-htlc-cltv-range",
+    "policy-commitment-outputs-trimmed",
+    "policy-commitment-first-no-htlcs",
+    "policy-commitment-initial-funding-value",
+    "policy-commitment-payment-velocity",
+    "policy-commitment-spends-active-utxo",
+    "policy-commitment",
+    "policy-routing-balanced",
+    "policy-mutual-value-matches-commitment",
+    "policy-mutual-no-pending-htlcs",
+    "policy-mutual-fee-range",
+    "policy-mutual-destination-allowlisted",
+];
+
+fn services(persister: Arc<dyn Persist>, clock: Arc<ManualClock>, demoted: &Option<String>) -> NodeServices {
+    let mut policy = make_default_simple_policy(Network::Testnet);
+    if let Some(tag) = demoted {
+        use lightning_signer::policy::filter::{FilterResult, FilterRule, PolicyFilter};
+        policy.filter = PolicyFilter { rules: vec![FilterRule { tag: tag.clone(), is_prefix: false, action: FilterResult::Warn }] };
+    }
     NodeServices {
         validator_factory: Arc::new(SimpleValidatorFactory::new_with_policy(policy)),
         starting_time_factory: make_genesis_starting_time_factory(Network::Testnet),
@@ -346,11 +391,35 @@ pub fn cp_point_id(n: u64, kind: u64) -> u64 {
 
 impl World {
     pub fn new() -> World {
-        let persister: Arc<dyn Persist> = Arc::new(KVVPersister(MemoryKVVStore::new([3u8; 16]), JsonFormat));
+        World::new_cfg(None)
+    }
+
+    /// `demoted`: one policy tag that the deployment's filter turns into a warning (None = default filter)
+    pub fn new_cfg(demoted: Option<String>) -> World {
+        World::new_cfg2(demoted, false)
+    }
+
+    fn make_persister(store: &Arc<Kvv>, backup: &Option<Arc<Kvv>>, fail: &Arc<std::sync::atomic::AtomicBool>, fail_b: &Arc<std::sync::atomic::AtomicBool>) -> Arc<dyn Persist> {
+        use crate::props::tap::Tap;
+        match backup {
+            // composite: writes go to the main store first, then to the backup; reads come from the main store
+            Some(b) => Arc::new(vls_persist::backup_persister::BackupPersister::new(Tap::with_fail(store.clone(), fail.clone()), Tap::with_fail(b.clone(), fail_b.clone()))),
+            None => Arc::new(Tap::with_fail(store.clone(), fail.clone())),
+        }
+    }
+
+    /// `backup`: persist through `BackupPersister<main, backup>` instead of a single store
+    pub fn new_cfg2(demoted: Option<String>, backup: bool) -> World {
+        let fail = Arc::new(std::sync::atomic::AtomicBool::new(false));
+        let fail_b = Arc::new(std::sync::atomic::AtomicBool::new(false));
+        let store: Arc<Kvv> = Arc::new(KVVPersister(MemoryKVVStore::new([3u8; 16]), JsonFormat));
+        let backup_store: Option<Arc<Kvv>> = if backup { Some(Arc::new(KVVPersister(MemoryKVVStore::new([4u8; 16]), JsonFormat))) } else { None };
+        // every write goes through a tap that can be told to fail (injected store failure)
+        let persister = World::make_persister(&store, &backup_store, &fail, &fail_b);
         let seed = [7u8; 32];
         let cfg = config();
         let clock = Arc::new(ManualClock::new(std::time::Duration::from_secs(1_700_000_000)));
-        let node = Arc::new(Node::new(cfg, &seed, vec![], services(persister.clone(), clock.clone())));
+        let node = Arc::new(Node::new(cfg, &seed, vec![], services(persister.clone(), clock.clone(), &demoted)));
         persister.new_node(&node.get_id(), &cfg, &*node.get_state()).unwrap();
         persister.new_tracker(&node.get_id(), &node.get_tracker()).unwrap();
         node.add_allowlist(&[]).unwrap();
@@ -359,6 +428,11 @@ impl World {
         let setup = make_test_channel_setup();
         let mut w = World {
             persister,
+            store,
+            backup_store,
+            fail_b,
+            fail,
+            demoted,
             clock,
             seed,
             node,
@@ -372,6 +446,7 @@ impl World {
             tags: BTreeSet::new(),
             step: 0,
             dead: false,
+            in_fail: false,
         };
         // the holder's own secrets, by value, straight from the channel keys (not through the
         // guarded accessors): commitment numbers 0..64 and the numbers the u64 edge requests alias to
@@ -414,6 +489,12 @@ impl World {
     /// would `NodeState::validate_payments` accept a commitment with these outgoing HTLCs now?
     pub fn outgoing_ok(&self, outgoing: &[HTLCInfo2]) -> bool {
         outgoing.iter().all(|h| self.approved_now(&h.payment_hash.0))
+    }
+
+    /// sum of the store versions of the channel entries (main store): changes iff a channel entry was written
+    pub fn channel_entry_version(&self) -> u64 {
+        use vls_persist::kvv::{KVVStore, KVV};
+        self.store.0.get_prefix("channel").map(|it| it.map(|KVV(_, (v, _))| v + 1).sum()).unwrap_or(0)
     }
 
     pub fn is_ready(&self) -> bool {
@@ -493,6 +574,11 @@ impl World {
 
     // ---- monitors -------------------------------------------------------------------------
     fn violation(&mut self, kind: &str, desc: String) {
+        // the one monitor that rests on a demotable tag
+        if kind == "c03-resign-changed" && self.demoted.as_deref() == Some("policy-commitment-retry-same") {
+            self.tags.insert("disarmed:c03-resign-changed".into());
+            return;
+        }
         self.mon.violations.push(Violation { kind: kind.into(), desc, at: self.step });
     }
 
@@ -529,7 +615,7 @@ impl World {
                 if self.mon.signed.contains(&k) {
                     self.violation("c02-signed-and-revoked", format!("{} disclosed the secret of holder commitment {} whose signature was released earlier", via, k));
                 }
-                if self.mon.sign_seen && !self.mon.revoked.contains(&k) {
+                if self.mon.sign_seen && !self.mon.revoked.contains(&k) && !self.mon.revoked_maybe.contains(&k) {
                     self.violation("c02-new-secret-after-sign", format!("{} disclosed the not yet disclosed secret of commitment {} after a holder signature had been released", via, k));
                 }
                 self.mon.revoked.insert(k);
@@ -595,12 +681,12 @@ impl World {
             self.mon.cp_signed.insert(n, (pt, c));
         }
         for j in 0..n.saturating_sub(1) {
-            if !self.mon.cp_revoked.contains_key(&j) {
+            if !self.mon.cp_revoked.contains_key(&j) && !self.mon.cp_revoked_maybe.contains(&j) {
                 self.violation("c03-sign-over-unrevoked", format!("signed counterparty commitment {} although {} was never revoked by a verified secret", n, j));
                 break;
             }
         }
-        let unrevoked = self.mon.cp_signed.keys().filter(|k| !self.mon.cp_revoked.contains_key(k)).count();
+        let unrevoked = self.mon.cp_signed.keys().filter(|k| !self.mon.cp_revoked.contains_key(k) && !self.mon.cp_revoked_maybe.contains(k)).count();
         if unrevoked > 2 {
             self.violation("c03-three-unrevoked", format!("{} signed counterparty commitments are unrevoked", unrevoked));
         }
@@ -663,6 +749,9 @@ impl World {
 
     fn on_cp_revoked(&mut self, n: u64, secret: [u8; 32], pt_of_secret: u64) {
         match self.mon.cp_signed.get(&n).copied() {
+            None if self.mon.cp_signed_maybe.get(&n) == Some(&pt_of_secret) => {
+                self.tags.insert("revocation-of-unacknowledged-signature".into());
+            }
             None => self.violation("c03-revocation-unsigned", format!("accepted a revocation of counterparty commitment {} that was never signed", n)),
             Some((p0, _)) =>
                 if p0 != pt_of_secret {
@@ -930,7 +1019,35 @@ impl World {
             self.step += 1;
             return "dead".into();
         }
+        if kind == "filter" {
+            self.step += 1;
+            return "ok".into();
+        }
+        if kind == "store" {
+            self.step += 1;
+            return "ok".into();
+        }
+        if kind == "failw" || kind == "failb" {
+            // the store (failb: the backup side of the composite) refuses every write during this one request
+            let inner = t[1..].join(" ");
+            let flag = if kind == "failb" { self.fail_b.clone() } else { self.fail.clone() };
+            flag.store(true, std::sync::atomic::Ordering::Relaxed);
+            self.in_fail = true;
+            let line = self.apply(&inner);
+            self.in_fail = false;
+            flag.store(false, std::sync::atomic::Ordering::Relaxed);
+            if line.starts_with("ok") {
+                // acknowledged although nothing could be written: the reply counts, the run goes on
+                self.tags.insert("failw:acknowledged".into());
+            } else {
+                // refused: memory may be ahead of the store; the process has to be restarted
+                self.tags.insert("failw:refused".into());
+                self.dead = true;
+            }
+            return format!("{} {}", kind, line);
+        }
         let ready = self.is_ready();
+        let v0 = self.channel_entry_version();
         let res: Result<String, String> = match catch_unwind(AssertUnwindSafe(|| -> Result<String, String> {
             match kind {
                 "setup" => {
@@ -968,8 +1085,10 @@ impl World {
                     Ok("ok".into())
                 }
                 "restart" => {
+                    // a process start builds a new persister object over the same stores
+                    self.persister = World::make_persister(&self.store, &self.backup_store, &self.fail, &self.fail_b);
                     let (node_id, entry) = self.persister.get_nodes().unwrap().into_iter().next().unwrap();
-                    let n = Node::restore_node(&node_id, entry, &self.seed, services(self.persister.clone(), self.clock.clone())).map_err(|e| class_of(&e))?;
+                    let n = Node::restore_node(&node_id, entry, &self.seed, services(self.persister.clone(), self.clock.clone(), &self.demoted)).map_err(|e| class_of(&e))?;
                     self.node = n;
                     self.dead = false;
                     Ok("ok".into())
@@ -1009,7 +1128,14 @@ impl World {
                             }
                             Ok("ok".into())
                         }
-                        Err(e) => Err(class_of(&e)),
+                        Err(e) => {
+                            // refused while a store write was failing: the signer may already have recorded the
+                            // (fully verified) commitment in the store side that did accept the write
+                            if self.in_fail && full {
+                                self.mon.accepted_valid.insert(n);
+                            }
+                            Err(class_of(&e))
+                        }
                     }
                 }
                 "revoke" => {
@@ -1017,7 +1143,16 @@ impl World {
                     match self.node.with_channel(&self.channel_id, |chan| chan.revoke_previous_holder_commitment(n)) {
                         Ok((_, Some(s))) => Ok(format!("ok {}", self.on_secret(s.secret_bytes(), "revoke_previous_holder_commitment"))),
                         Ok((_, None)) => Ok("ok".into()),
-                        Err(e) => Err(class_of(&e)),
+                        Err(e) => {
+                            // refused while a write was failing: the advance (and with it the release of this secret) may already
+                            // be recorded by the store side that took the write
+                            if self.in_fail {
+                                if let Some(k) = n.checked_sub(1) {
+                                    self.mon.revoked_maybe.insert(k);
+                                }
+                            }
+                            Err(class_of(&e))
+                        }
                     }
                 }
                 "activate" => self.node.with_channel(&self.channel_id, |chan| chan.activate_initial_commitment()).map(|_| "ok".to_string()).map_err(|e| class_of(&e)),
@@ -1150,7 +1285,12 @@ impl World {
                             }
                             Ok("ok".into())
                         }
-                        Err(e) => Err(class_of(&e)),
+                        Err(e) => {
+                            if self.in_fail {
+                                self.mon.cp_signed_maybe.insert(n, ptid);
+                            }
+                            Err(class_of(&e))
+                        }
                     }
                 }
                 "revokecp" => {
@@ -1165,6 +1305,9 @@ impl World {
                         }
                         Err(e) => {
                             self.check_store_present("a refused revocation");
+                            if self.in_fail {
+                                self.mon.cp_revoked_maybe.insert(n);
+                            }
                             Err(class_of(&e))
                         }
                     }
@@ -1211,7 +1354,13 @@ impl World {
                                 || (a.next_holder_commit_info.is_some() && b.next_holder_commit_info.is_none()),
                         _ => false,
                     };
-                    if validated && s {
+                    if self.in_fail && r.is_err() && ver < 5 {
+                        // old protocol: the same request also revokes n-1
+                        if let Some(k) = n.checked_sub(1) {
+                            self.mon.revoked_maybe.insert(k);
+                        }
+                    }
+                    if (validated || self.in_fail) && s {
                         self.mon.accepted_valid.insert(n);
                     } else if validated {
                         self.tags.insert("validate:accepted-not-fully-signed".into());
@@ -1235,7 +1384,16 @@ impl World {
                             Message::RevokeCommitmentTxReply(rep) => Ok(format!("ok {}", self.on_secret(rep.old_commitment_secret.0, "RevokeCommitmentTx"))),
                             _ => Ok("ok ?reply".into()),
                         },
-                        Err(e) => Err(herr_class(&e)),
+                        Err(e) => {
+                            // refused while a write was failing: the advance (and with it the release of this secret) may already
+                            // be recorded by the store side that took the write
+                            if self.in_fail {
+                                if let Some(k) = Some(n) {
+                                    self.mon.revoked_maybe.insert(k);
+                                }
+                            }
+                            Err(herr_class(&e))
+                        }
                     }
                 }
                 "hgetpoint" => {
@@ -1329,6 +1487,9 @@ impl World {
                         }
                         Err(e) => {
                             self.check_store_present("a refused revocation");
+                            if self.in_fail {
+                                self.mon.cp_revoked_maybe.insert(n);
+                            }
                             Err(herr_class(&e))
                         }
                     }
@@ -1368,7 +1529,12 @@ impl World {
                             }
                             Ok("ok".into())
                         }
-                        Err(e) => Err(herr_class(&e)),
+                        Err(e) => {
+                            if self.in_fail {
+                                self.mon.cp_signed_maybe.insert(n, ptid);
+                            }
+                            Err(herr_class(&e))
+                        }
                     }
                 }
                 "hmutualclose" => {
@@ -1469,7 +1635,13 @@ impl World {
                                 || (a.next_holder_commit_info.is_some() && b.next_holder_commit_info.is_none()),
                         _ => false,
                     };
-                    if validated && full {
+                    if self.in_fail && r.is_err() && ver < 5 {
+                        // old protocol: the same request also revokes n-1
+                        if let Some(k) = n.checked_sub(1) {
+                            self.mon.revoked_maybe.insert(k);
+                        }
+                    }
+                    if (validated || self.in_fail) && full {
                         self.mon.accepted_valid.insert(n);
                     } else if validated {
                         self.tags.insert("validate:accepted-not-fully-signed".into());
@@ -1547,7 +1719,8 @@ impl World {
         if head == "bad-op" {
             return head;
         }
-        format!("{} | {}", head, self.digest())
+        let v1 = self.channel_entry_version();
+        format!("{} | {} w={}", head, self.digest(), if v1 != v0 { 1 } else { 0 })
     }
 }
 
